@@ -93,6 +93,10 @@ def upd {α : Type} (f : Fin n → α) (v : Fin n) (x : α) : Fin n → α := fu
 @[simp] theorem upd_same {α : Type} (f : Fin n → α) (v : Fin n) (x : α) : upd f v x v = x := by simp [upd]
 @[simp] theorem upd_other {α : Type} (f : Fin n → α) (v w : Fin n) (x : α) (h : w ≠ v) : upd f v x w = f w := by
   simp [upd, h]
+@[simp] theorem upd_self {α : Type} (f : Fin n → α) (v : Fin n) : upd f v (f v) = f := by
+  funext w; by_cases h : w = v
+  · subst h; simp [upd]
+  · simp [upd, h]
 theorem upd_apply {α : Type} (f : Fin n → α) (v w : Fin n) (x : α) : upd f v x w = if w = v then x else f w := rfl
 
 /-! ### Tree -/
